@@ -117,6 +117,12 @@ type PanicState struct {
 
 type ThreadID int32
 
+type spawnBar struct {
+	parent ThreadID
+	blocks int
+	n      int
+}
+
 type Thread struct {
 	ID         ThreadID
 	Frames     []*Frame
@@ -129,9 +135,7 @@ type Thread struct {
 	MustFinish bool
 	Atomic     int // nesting depth of atomic sections
 	Pending    *VisOp
-	BarParent  ThreadID // spawn barrier: the parent's accesses before the go statement happen-before this thread
-	BarBlocks  int
-	BarN       int
+	Bars       []spawnBar // spawn barriers: accesses of the ancestors that precede the go statements happen-before this thread
 	Open       []accessRec // cells accessed since the last visible operation (race check)
 	Start      *StartCall
 	Name       string
